@@ -61,6 +61,15 @@ Theorem C10_ctor_limit_limit :
     impl_limit_from d full (Some k) chain n = Good (pyslice None (Some n) (spec_list (pyslice None (Some k) full) chain)).
 Proof. exact (@ctor_chain_limit). Qed.
 
+(* The window is applied AFTER filtering and ordering: in the statement text Select.__sqlrepr__ assembles (clause order
+   regenerated from its source on every run) the LIMIT/OFFSET tail comes after FROM, WHERE, GROUP BY, HAVING and ORDER BY,
+   and only FOR UPDATE follows it -- so `full` in the theorems above is the filtered, ordered result, as SQL evaluates
+   ORDER BY before LIMIT/OFFSET.  (A closed boolean computation over the generated constant.) *)
+Theorem C10_window_after_order :
+  forallb (fun c => appended_before c CL_WINDOW select_clause_order) [CL_FROM; CL_WHERE; CL_GROUPBY; CL_HAVING; CL_ORDERBY] = true /\
+  forallb (fun c => negb (appended_before CL_WINDOW c select_clause_order)) [CL_DISTINCT; CL_FROM; CL_WHERE; CL_GROUPBY; CL_HAVING; CL_ORDERBY] = true.
+Proof. exact (conj eq_refl eq_refl). Qed.
+
 (* non-vacuity: the hypotheses hold on concrete non-trivial states, and the
    model computes non-trivial answers there *)
 Example C10_fits_nonvacuous : fits Mysql [10; 20; 30; 40; 50].
@@ -88,6 +97,7 @@ Example C10_example_ctor_limit :
 Proof. vm_compute. auto. Qed.
 
 Print Assumptions C10_chain.
+Print Assumptions C10_window_after_order.
 Print Assumptions C10_ctor_limit_chain.
 Print Assumptions C10_ctor_limit_index.
 Print Assumptions C10_ctor_limit_limit.
